@@ -186,7 +186,12 @@ sched_st = st.fixed_dictionaries({"a_send": sched_list, "a_recv": sched_list, "b
 @st.composite
 def case_st(draw):
     req = draw(request_st())
-    return {"req": req, "resp": draw(response_st(req["method"])), "sched": draw(sched_st)}
+    case = {"req": req, "resp": draw(response_st(req["method"])), "sched": draw(sched_st)}
+    # in a third of the cases the exchange under test is the SECOND one on its connection: a plain GET with a
+    # generated response shape goes first (state left over by a previous response must not leak into this one)
+    if draw(st.integers(0, 2)) == 0:
+        case["prev"] = draw(response_st("GET"))
+    return case
 
 
 # ------------------------------------------------------------------------------ execution
@@ -307,8 +312,26 @@ def run_case(case):
     req, resp = case["req"], case["resp"]
     fails = []
     seen = []
-    mp = httppipe.memory_pair(make_app(resp, seen), case.get("sched"), redirectable=False)
+    prev = case.get("prev")
+    if prev:
+        prevseen = []
+        apps = [make_app(prev, prevseen), make_app(resp, seen)]
+        calls = []
+
+        def app(environ, start_response):
+            calls.append(1)
+            return apps[0 if len(calls) == 1 else 1](environ, start_response)
+    else:
+        app = make_app(resp, seen)
+    mp = httppipe.memory_pair(app, case.get("sched"), redirectable=False)
     try:
+        if prev:
+            mp.patron.request(method="GET", path="/warmup")
+            state, rounds, ex = httppipe.drive(mp, lambda: bool(mp.patron.responses) and not mp.patron.waited)
+            if state != "done":
+                # the warm-up exchange itself is not this case's subject (C31 decides sequences)
+                return fails
+            mp.patron.responses.clear()
         hdrs = odict((k, v) for k, v in req["headers"])
         if req.get("ctype"):
             hdrs["Content-Type"] = req["ctype"]
@@ -478,7 +501,7 @@ def plan(tier):
 
 def work(shard, seed, tier):
     acc = Acc()
-    n = 50 if tier == "quick" else 1900
+    n = 150 if tier == "quick" else 1900
     campaign(acc, case_st(), execute, n, seed * 1000 + shard["i"],
              budget=Budget(90 if tier == "quick" else 540), shrink_examples=300)
     return acc
